@@ -99,6 +99,10 @@ pub fn eval_static(prop: &str, case: &StaticCase, r: &mut RunResult) {
     if af.components().len() > 1 {
         r.count("frameworks_with_several_components", 1);
     }
+    if case.enc == Enc::Hybrid {
+        // probe: which side of the hybrid encoder's switching threshold (product of defender sets >= 32)
+        r.count(if max_defender_product(&out.store) >= 32 { "probe_hybrid_aux_var_path" } else { "probe_hybrid_exp_path_only" }, 1);
+    }
     let n_att = af.attacks().len();
     if af.n >= 2 && n_att >= 1 && (h.calls >= 1 || matches!(case.sem, Sem::GR) || (case.sem == Sem::CO && case.queries.iter().all(|q| q.kind != QKind::DC))) {
         let mut d = Digest::default();
